@@ -4,6 +4,9 @@
 #![allow(unused)]
 mod canon;
 mod mode_fsm;
+mod mode_parse;
+mod mode_doc;
+mod mode_format;
 use canon::*;
 use mech_core::*;
 use mech_interpreter::*;
@@ -280,6 +283,9 @@ fn main() {
       "bytecode" => mode_bytecode(&j),
       "loader" => mode_loader(&j),
       "fsm" => mode_fsm::mode_fsm(&j),
+      "parse" => mode_parse::mode_parse(&j),
+      "doc" => mode_doc::mode_doc(&j),
+      "format" => mode_format::mode_format(&j),
       _ => "(badmode)".to_string(),
     };
     writeln!(out, "{}\t{}", id, r).ok();
